@@ -245,6 +245,16 @@ class Sched:
 
     def _dispatch(self, me, finished=False):
         """Choose what happens next until a task is selected; hand the baton over."""
+        if self.failed is not None and not finished:
+            # the run has already failed (deadlock / step cap): the main task holds the baton for good and every further
+            # synchronisation point it reaches - in the cleanup code of the program under test - fails the same way, so
+            # that no other task is woken only to abort without passing the baton on
+            if me is self.tasks[0]:
+                self.post_failure_calls = getattr(self, 'post_failure_calls', 0) + 1
+                if self.post_failure_calls > 200:
+                    raise _Abort()          # cleanup code that swallows the failure in a loop
+                raise self.failed
+            raise _Abort()
         while True:
             try:
                 ch = self._choose()
@@ -593,6 +603,35 @@ class SimLock:
         self.release()
 
 
+class SimSemaphore:
+    def __init__(self, sched, value=1, bounded=False):
+        if value < 0:
+            raise ValueError('semaphore initial value must be >= 0')
+        self.s = sched
+        self.value = value
+        self.initial = value
+        self.bounded = bounded
+
+    def acquire(self, blocking=True, timeout=None):
+        ok = self.s.block(lambda: self.value > 0, (None if timeout is None or timeout < 0 else timeout) if blocking else 0, 'semaphore')
+        if ok:
+            self.value -= 1
+        return ok
+
+    def release(self, n=1):
+        if self.bounded and self.value + n > self.initial:
+            raise ValueError('Semaphore released too many times')
+        self.value += n
+        self.s.yield_point('semaphore.release')
+
+    def __enter__(self):
+        self.acquire()
+        return self
+
+    def __exit__(self, *a):
+        self.release()
+
+
 class SimEvent:
     def __init__(self, sched):
         self.s = sched
@@ -641,12 +680,14 @@ def install(sched, module, cpu_count=None, line_preempt=False):
     fake_mp = _FakeModule('multiprocessing', multiprocessing, {
         'Queue': mk(SimProcQueue), 'Process': mk(SimProcess), 'SimpleQueue': mk(SimProcQueue), 'JoinableQueue': mk(SimProcQueue),
         'cpu_count': lambda: cpu_count or 2, 'Lock': mk(SimLock), 'Event': mk(SimEvent),
+        'Semaphore': lambda value=1: SimSemaphore(s, value), 'BoundedSemaphore': lambda value=1: SimSemaphore(s, value, bounded=True),
         'get_context': lambda *a, **k: fake_mp, 'get_start_method': lambda *a, **k: 'fork',
         'current_process': lambda: types.SimpleNamespace(name='p%d' % s.current.proc, pid=40000 + s.current.proc),
-    }, strict=['Pool', 'Value', 'Array', 'Manager', 'Pipe', 'Semaphore', 'Condition', 'Barrier', 'shared_memory'])
+    }, strict=['Pool', 'Value', 'Array', 'Manager', 'Pipe', 'Condition', 'Barrier', 'shared_memory'])
     fake_threading = _FakeModule('threading', threading, {
         'Thread': mk(SimThread), 'Lock': mk(SimLock), 'RLock': mk(SimLock), 'Event': mk(SimEvent),
-    }, strict=['Condition', 'Semaphore', 'BoundedSemaphore', 'Barrier', 'Timer'])
+        'Semaphore': lambda value=1: SimSemaphore(s, value), 'BoundedSemaphore': lambda value=1: SimSemaphore(s, value, bounded=True),
+    }, strict=['Condition', 'Barrier', 'Timer'])
     fake_queue = _FakeModule('queue', queue, {'Queue': mk(SimThreadQueue), 'SimpleQueue': mk(SimThreadQueue)},
                              strict=['LifoQueue', 'PriorityQueue'])
     fake_os = _FakeModule('os', os, {'getpid': lambda: 40000 + s.current.proc, 'cpu_count': lambda: cpu_count or 2})
@@ -657,7 +698,8 @@ def install(sched, module, cpu_count=None, line_preempt=False):
              (threading.Thread, fake_threading.Thread), (queue.Queue, fake_queue.Queue),
              (os.getpid, fake_os.getpid), (os.cpu_count, fake_os.cpu_count), (time.sleep, fake_time.sleep),
              (multiprocessing.cpu_count, fake_mp.cpu_count), (threading.Lock, fake_threading.Lock),
-             (threading.Event, fake_threading.Event)]
+             (threading.Event, fake_threading.Event), (threading.Semaphore, fake_threading.Semaphore),
+             (threading.BoundedSemaphore, fake_threading.BoundedSemaphore)]
     n = 0
     for k, v in list(vars(module).items()):
         if id(v) in byid:
